@@ -195,6 +195,20 @@ def run_case(ctx, desc):
         return ctx.violation(f"{opk}.not_reproducible", "same generator state gave different spike trains", desc)
     ctx.count("reproducibility_checks")
     res = outs[0]
+    if ".setter_configured" in opk:
+        # the generator (and everything else) handed over through the setters is the one that is used: the same configuration
+        # given to the constructor, with the generator in the same state, draws the same train
+        try:
+            ref, _ = _run({**desc, "reconfigure": False}, x.clone(memory_format=torch.preserve_format), torch.Generator().manual_seed(desc["seed"]))
+        except Exception as e:  # noqa: BLE001
+            return ctx.violation(ctx.exc_signature(e, opk + ".constructor_twin"), f"{type(e).__name__}: {str(e)[:140]}", desc)
+        if isinstance(ref, list):
+            ref = torch.stack(ref, 0)
+        ctx.count("setter_vs_constructor_train_comparisons")
+        if ref.shape != res.shape or not torch.equal(ref, res):
+            return ctx.violation(f"{opk}.train_differs_from_constructor_configured",
+                                 "an encoder configured through its setters (generator included) draws a different train than one "
+                                 "given the same configuration and generator state at construction", desc)
     zero = x == 0
     if desc.get("storm"):
         ctx.count("zero_intensity_element_steps_in_storms", int(zero.sum()) * steps)
